@@ -397,6 +397,9 @@ impl Property for C17 {
                     }
                     probes.push(r.index ^ 1);
                 }
+                // the first positions outside the tree: every build must refuse them (and none may crash)
+                probes.push(CAP);
+                probes.push(CAP + 1);
                 probes.sort();
                 probes.dedup();
                 Case { ops, probes, reqs }
